@@ -164,7 +164,7 @@ class ConnTypes(ElabPass):
 
             # Recursively check that each Bundle is compatible
             for key, val in bundle.bundles.items():
-                sts = self.check_bundles_compatible(val.of, other.bundles[key].of)
+                sts = self.check_bundles_compatible(val.of, other.bundles[key])
                 if not isinstance(sts, Valid):
                     return sts
 
@@ -178,7 +178,8 @@ class ConnTypes(ElabPass):
                 if attr is None:
                     msg = f"Bundle `{bundle.name}` has no member `{key}`"
                     return InvalidType(msg)
-                if isinstance(val, AnonymousBundle):
+                if isinstance(val, (AnonymousBundle, BundleInstance)):
+                    # A nested bundle - anonymous, or an instance of a bundle type - must in turn match the member it is given for.
                     if not isinstance(attr, BundleInstance):
                         msg = f"Member `{key}` of Bundle `{bundle.name}` is not a Bundle"
                         return InvalidType(msg)
